@@ -10,8 +10,44 @@ observe(case) -> trace record for Trace_C12.tla:
 
 from fractions import Fraction
 
-KEYS = ["foo", "qux", "kfoo", "kqux"]
-PROBES = ["foo", "qux", "kfoo", "kqux", "foo**2", "foo*qux", "kfoo/qux"]
+# two alphabets (Registry.tla, constant Alias): user symbols foo/qux, or foo + the library's own "s" probed through alias spellings
+ALPHA = {
+    False: (["foo", "qux", "kfoo", "kqux"], ["foo", "qux", "kfoo", "kqux", "foo**2", "foo*qux", "kfoo/qux"]),
+    True: (["foo", "s", "kfoo", "ks"], ["foo", "second", "kfoo", "kilosecond", "s", "foo*second", "kfoo/second"]),
+}
+KEYS, PROBES = ALPHA[False]
+
+
+def _set_alphabet(alias):
+    global KEYS, PROBES
+    KEYS, PROBES = ALPHA[bool(alias)]
+
+
+# source quantities for observing what a string resolves to through the conversion entry points: one per dimension a
+# probe can have, written in units the histories never edit (m, hr)
+_SOURCES = ["m", "hr", "m**2", "hr**2", "m*hr", "m/hr", "hr/m", "dimensionless"]
+
+
+def _via_convert(reg, p):
+    """What `p` resolves to through x.to(str) and x.convert_to_units(str): the unit the result is labelled with."""
+    U = _U
+    out = []
+    for via in ("to(str)", "convert_to_units(str)"):
+        obs = {"k": "raise"}
+        for src in _SOURCES:
+            try:
+                x = U["unyt"].unyt_array([3.0, 6.0], src, registry=reg)
+                if via == "to(str)":
+                    y = x.to(p)
+                else:
+                    x.convert_to_units(p)
+                    y = x
+                obs = _unit_obs(y.units)
+                break
+            except Exception:  # noqa: BLE001
+                continue
+        out.append({"via": via, "obs": obs})
+    return out
 
 _U = {}
 
@@ -90,6 +126,7 @@ def step(reg, e, objs):
     dim = {"L": U["dims"].length, "T": U["dims"].time}
     op = e["op"]
     exc = None
+    via = op == "unit"
     try:
         if op == "add":
             reg.add(e["sym"], float(e["scale"]), dim[e["dim"]], prefixable=bool(e["pfx"]))
@@ -106,12 +143,17 @@ def step(reg, e, objs):
         elif op == "contains":
             obs = {"k": "bool", "b": bool(e["sym"] in reg)}
         elif op == "define":
-            U["define_unit"](e["sym"], (float(e["scale"]), "m" if e["dim"] == "L" else "s"), prefixable=bool(e["pfx"]), registry=reg)
+            val = (float(e["scale"]), "m" if e["dim"] == "L" else "s")
+            if "s" in KEYS:
+                # alphabet Alias: "s" itself may have been edited in `reg`, so the value is given as a quantity of the default registry
+                val = U["uq"](*val)
+            U["define_unit"](e["sym"], val, prefixable=bool(e["pfx"]), registry=reg)
             obs = {"k": "ok"}
         elif op == "unit":
             u = U["Unit"](e["str"], registry=reg)
             obs = _unit_obs(u)
             objs.append((u, u.base_value, u.dimensions, str(u.expr)))
+            via = True
         else:
             raise ValueError("unknown op " + op)
     except Exception as ex:  # noqa: BLE001
@@ -122,6 +164,13 @@ def step(reg, e, objs):
     out["exc"] = exc or ""
     out["rows"] = _rows(reg)
     out["cache"] = _cache(reg)
+    out["via"] = []
+    if via:
+        # the same string through the conversion entry points, from the same registry state (dicts restored afterwards;
+        # process-wide memos are deliberately not)
+        snap = _snapshot(reg)
+        out["via"] = _via_convert(reg, e["str"])
+        _restore(reg, snap)
     return out
 
 
@@ -139,12 +188,14 @@ def final_obs(reg, objs):
             probes.append({"k": "raise"})
         _restore(reg, snap)
         # the same resolution reached through array creation + conversion, and through arithmetic
-        for via in ("in_base", "mul", "to_mks"):
+        # (with the alphabet Alias the base unit "s" of the mks system is itself edited, so reduction to mks base units
+        # is not a fair probe there; the conversion entry points are probed at every construction step instead)
+        for via in ("mul",) if "s" in KEYS else ("in_base", "mul", "to_mks"):
             try:
                 if via == "in_base":
                     q = U["uq"](3.0, p, registry=reg)
                     b = q.in_base("mks")
-                    obs = {"k": "unit", "s": _rat(float(b.d) / 3.0), "d": _dimvec(b.units.dimensions)}
+                    obs = {"k": "unit", "s": _rat(float(b.d) * b.units.base_value / 3.0), "d": _dimvec(b.units.dimensions)}
                 elif via == "mul":
                     q = U["uq"](3.0, p, registry=reg)
                     one = U["uq"](2.0, "m", registry=reg)
@@ -153,7 +204,7 @@ def final_obs(reg, objs):
                 else:
                     a = U["unyt"].unyt_array([3.0, 6.0], p, registry=reg)
                     a.convert_to_base("mks")
-                    obs = {"k": "unit", "s": _rat(float(a.d[1]) / 6.0), "d": _dimvec(a.units.dimensions)}
+                    obs = {"k": "unit", "s": _rat(float(a.d[1]) * a.units.base_value / 6.0), "d": _dimvec(a.units.dimensions)}
             except Exception:  # noqa: BLE001
                 obs = {"k": "raise"}
             _restore(reg, snap)
@@ -168,7 +219,12 @@ def final_obs(reg, objs):
 
 
 def observe(case):
+    _set_alphabet(case.get("alias", False))
     reg = _U["UnitRegistry"]()
+    for k in KEYS:
+        # derived prefixed rows the defaults may already carry (written back by earlier look-ups in this process)
+        if k in ("ks",) and k in reg.lut:
+            del reg.lut[k]
     objs = []
     ev = [step(reg, e, objs) for e in case["h"]]
     return {"ev": ev, "final": final_obs(reg, objs)}
